@@ -38,6 +38,7 @@ inductive NoEmit (m : Nat) : E → Prop where
   | forList x l b : NoEmit m l → NoEmit m b → NoEmit m (.forList x l b)
   | forGen x g args b : (∀ e ∈ args, NoEmit m e) → NoEmit m b → NoEmit m (.forGen x g args b)
   | brk : NoEmit m .brk
+  | brkV e : NoEmit m e → NoEmit m (.brkV e)
   | cont : NoEmit m .cont
   | ret e : NoEmit m e → NoEmit m (.ret e)
   | try_ b cs fin : NoEmit m b → (∀ c ∈ cs, NoEmit m c.2.2) → (∀ f, fin = some f → NoEmit m f) →
@@ -215,6 +216,10 @@ theorem noEmit_run (cfg : Cfg) (P : Prog) (m : Nat) (hP : ProgNoEmit m P) :
           exact ⟨this.2.1, this.2.2, hb⟩
         (repeat' split at h) <;> grind
       | brk => simp only [run] at h; grind
+      | brkV e he =>
+        simp only [run] at h
+        have hev : TaskNoEmit m (.ev e) := he
+        (repeat' split at h) <;> grind
       | cont => simp only [run] at h; grind
       | ret e he =>
         simp only [run] at h
